@@ -55,6 +55,9 @@ CHECKS = {
  "C18": (True, MC, "exploration of every generated client shape; rustc's auto-trait solver as per-program oracle, plus a spawned call on a multi-threaded runtime",
          "For every state of the C05 scope the driver asserts Send on the future of every client method and free-standing function, Send + Sync on every envelope type, and spawns the method call onto a multi-threaded tokio runtime against the loopback listener. The fixed helper functions are discovered in the emitted file and additionally driven with a hand-written request envelope that is Send but not Sync (appended to the emitted text because the helper module is private).",
          "The verdict per program is rustc's; a probe that does not fit a refactored helper signature yields no verdict (recorded in the evidence), never an alarm.", "4/C18"),
+ "C07": (True, MC, "exploration of facet configurations x positions x placements of violating / boundary values, executed on the compiled generated client against a loopback listener",
+         "For each facet configuration (every facet kind on string/int/long, pairs, simple-type derivation chains of depth 2 and 3) a WSDL is generated in which the restricted type occurs at 9 positions (direct, optional, first and second item of a repeated member, nested one and two levels, attribute, member inherited through a complex extension, header part). Every placement (all boundary-valid; each position x each violating value; pairs; a triple) is built as a complete request envelope; check_restrictions(None) must fail exactly when some placed value violates some facet of its type's derivation chain. For all-valid and single placements the client method is called: a violating request must return the restriction error with zero connections accepted by the listener, a valid one exactly one connection.",
+         "One violating value alphabet per configuration; quick tier uses neighbouring pairs only. The restriction trait and method are discovered through an impl in the emitted file.", "4/C07"),
 }
 
 NOT_YET = {
